@@ -225,6 +225,9 @@ class Lib:
         return h("|".join("%s=%s" % (n, sig(v)) for n, v in objs))
 
 
+ISO = {}
+
+
 def run_history(lib, progs, schedule, rnd):
     """progs: list (per thread) of lists of (cls, key, fn, factory); schedule: list of ("S"|"F", thread index)
     or None (free-running threads).  Returns the trace."""
@@ -268,7 +271,7 @@ def run_history(lib, progs, schedule, rnd):
                 if nthreads == 1:
                     consts_same = lib.quick_snapshot(objs) == snap0
                 events.append({"k": "E", "t": ti + 1, "cls": cls, "key": key, "res": res, "exc": exc,
-                               "args_same": args_same, "consts_same": consts_same})
+                               "args_same": args_same, "consts_same": consts_same, "iso": ISO.get(key, "")})
             done_ev[ti][ci].set()
 
     threads = [threading.Thread(target=worker, args=(i,)) for i in range(nthreads)]
@@ -300,6 +303,24 @@ def run_history(lib, progs, schedule, rnd):
                 break
     return {"progs": [[c[0] for c in p] for p in progs], "ev": events, "keys": [[c[1] for c in p] for p in progs],
             "scheduled": schedule is not None}, calls[0]
+
+
+def isolated_references(lib):
+    """result of every concrete call when it is the only library call its (fresh) process ever makes"""
+    import subprocess
+    from concurrent.futures import ThreadPoolExecutor
+    keys = [k for lst in lib.calls.values() for (k, fn, fac) in lst]
+    env = dict(os.environ)
+
+    def one(key):
+        p = subprocess.run([sys.executable, "-m", "harness.props.c09_iso", key], stdout=subprocess.PIPE, stderr=subprocess.PIPE,
+                           text=True, env=env, timeout=300)
+        out = p.stdout.strip().split("\t")
+        if p.returncode != 0 or len(out) != 2 or out[0] != key:
+            raise tlc.MachineryError("isolated reference for %s failed: %s %s" % (key, p.stdout[-200:], p.stderr[-300:]))
+        return key, out[1]
+    with ThreadPoolExecutor(max_workers=12) as ex:
+        return dict(ex.map(one, keys))
 
 
 def pick(lib, cls, rnd, counter):
@@ -374,6 +395,10 @@ def run(ctx):
     if "Determinism" not in ra.violated:
         raise tlc.MachineryError("as-built Purity model does not refute Determinism: the model cannot express the defect")
     ctx.extra["asbuilt_counterexample_steps"] = len(ra.error_states)
+    # 1b. history-independence references: every concrete call alone in a fresh interpreter
+    ISO.clear()
+    ISO.update(isolated_references(lib))
+    ctx.extra["isolated_process_references"] = len(ISO)
     # 2. schedules from TLC
     scheds = schedules("MCThreads1", "Calls14", 2 if quick else 3, ctx, "single thread: all programs <= %d over 16 call classes" % (2 if quick else 3))
     n_single = len(scheds)
@@ -452,14 +477,17 @@ def selftest(traces):
     # same key twice with different result
     e = copy.deepcopy(t4["ev"][:2])
     e[1]["res"] = "ok:corrupted"
+    e[1]["iso"] = ""
     t4["ev"] = t4["ev"][:2] + e + t4["ev"][2:]
     t4["progs"][0] = [t4["progs"][0][0]] + t4["progs"][0]
-    fails = validate([base, t1, t2, t3, t4], None, None)
+    t5 = copy.deepcopy(base)
+    t5["ev"][1]["iso"] = "ok:other-history"
+    fails = validate([base, t1, t2, t3, t4, t5], None, None)
     rej = {i: c for (i, l, c) in fails}
     out = {"ran": True, "baseline_accepted": 0 not in rej, "injected_write_rejected": rej.get(1, ""),
            "argument_mutation_rejected": rej.get(2, ""), "removed_start_rejected": rej.get(3, ""),
-           "differing_repeat_rejected": rej.get(4, "")}
-    if 0 in rej or not all(k in rej for k in (1, 2, 3, 4)):
+           "differing_repeat_rejected": rej.get(4, ""), "history_dependence_rejected": rej.get(5, "")}
+    if 0 in rej or not all(k in rej for k in (1, 2, 3, 4, 5)):
         raise tlc.MachineryError("binding self-test failed: %s" % out)
     return out
 
@@ -472,6 +500,8 @@ def replay(ctx, data):
     order = None
     if c.get("scheduled"):
         order = [("S" if k == "S" else "F", t - 1) for (k, t) in c["order"]]
+    ISO.clear()
+    ISO.update(isolated_references(lib))
     tr, n = run_history(lib, progs, order, random.Random(0))
     fails = validate([tr], ctx, "replay")
     for (i, l, clause) in fails:
